@@ -329,8 +329,6 @@ def run_cert_images(cases, impl, drv, drv_key, tag, timeout=1800):
     -> {case id: (ok '1'/'0'/'-', count, note)}"""
     todo = []
     for c in cases:
-        if c.var != "bw":
-            continue
         lines = impl.get(c.id, [])
         hx = [l.split(" ", 1)[1] for l in lines if l.startswith("IMGHEX ")]
         if "BUILD ok" not in lines or not hx:
@@ -348,7 +346,7 @@ def run_cert_images(cases, impl, drv, drv_key, tag, timeout=1800):
         path = os.path.join(wd, f"cert{i}.case")
         with open(path, "w") as f:
             for c, hx in sh:
-                f.write(f"CASE {c.id}\nVAR bw\nKIND {c.kind}\nVT {c.vt}\nENTRY {c.entry}\n")
+                f.write(f"CASE {c.id}\nVAR {c.var}\nKIND {c.kind}\nVT {c.vt}\nENTRY {c.entry}\n")
                 for pat, v in c.pats:
                     f.write(f"P {pat.hex() if pat else '-'} {v}\n")
                 f.write(f"IMGHEX {hx}\nEND\n")
